@@ -158,7 +158,9 @@ VARIANTS = {
     'plain': '<dtml-in s start=st end=en size=sz orphan=orp overlap=ov>%s'
              '<dtml-else>EMPTY</dtml-in>',
 }
-SEQKINDS = ['iter', 'hinted', 'gen', 'map', 'chain', 'lazy', 'lazy-nolen']
+SEQKINDS = ['iter', 'hinted', 'gen', 'map', 'chain', 'lazy', 'lazy-nolen',
+            # lazily produced (key, value) pairs: items(), zip, enumerate
+            'pairs', 'enumerate']
 
 
 def make_seq(seqkind, L):
@@ -173,6 +175,10 @@ def make_seq(seqkind, L):
         return c, (x for x in c)
     if seqkind == 'map':
         return c, map(int, c)
+    if seqkind == 'pairs':
+        return c, (('k%d' % x, x) for x in c)
+    if seqkind == 'enumerate':
+        return c, enumerate(c)
     return c, itertools.chain(c)
 
 
